@@ -18,7 +18,10 @@ RULE = ('generated dataset directories (dense integer templates, 2-5 templates, 
         'without spikes at the start / in the middle / at the end; stage 5: regular linear / two-column / staggered / lattice '
         'probes with 13-32 channels where a DISTANCE TIE crosses the 12-nearest boundary, and directories holding bystander files '
         '- KiloSort2\'s templates_ind.npy (arange rows, several dtypes) beside the dense templates, cluster_KSLabel.tsv, '
-        'cluster_group.tsv), then an exhaustive small scope (every cluster vector over ids {0,1,2,4} '
+        'cluster_group.tsv; stage 6: ID MAGNITUDES - 17-130 templates and cluster ids up to 4095 (fresh ids of a long session) '
+        'with every accepted id dtype incl. uint16, so that template_id * n_clusters passes 2^16 - and the curation GOING ON ON '
+        'THE LOADED OBJECT: 1-3 further stages of 1-3 operations applied to model.spike_clusters in place / element-wise / by '
+        'rebinding, get_merge_map() and get_cluster_mean_waveforms of every id asked again after each), then an exhaustive small scope (every cluster vector over ids {0,1,2,4} '
         'for fixed 4-spike template vectors), then the seeded random stream. Non-trivial = the directory loads and the '
         'curated branch is taken (or the identity branch with an unused template); distinct = distinct abstract input.')
 EXHAUSTIVE = {'quick': True, 'thorough': True}
@@ -104,6 +107,25 @@ def _corpus(rng):
                            names='ks', **small))
     out.append(G.gen_input(rng, nt=3, st=[0, 1, 2, 2], sc=[3, 3, 2, 0], extra=[['templates_ind.npy', 'uint32'], ['cluster_group.tsv', 'text']],
                            names='alf', nc=5, ns=2, shanks='two', whitening='tri'))
+    # stage 6 (seeded changes m12, m13)
+    # id magnitudes: 24 templates, a long session (fresh ids around 3000), 16-bit / 32-bit template ids
+    big_st = [23, 3, 4, 7, 12, 23, 23, 22, 3, 0]
+    big_sc = [2998, 3000, 3000, 2999, 2999, 23, 23, 22, 3000, 0]
+    for dt in ('uint16', 'int32'):
+        out.append(G.gen_input(rng, nt=24, st=big_st, sc=big_sc, nc=3, ns=2, shanks='none', whitening='none', geometry='grid',
+                               id_dtype=dt, clu_dtype='int32'))
+    # 130 templates and ~520 cluster ids
+    out.append(G.gen_input(rng, nt=130, st=[129, 128, 127, 5, 129, 0], sc=[519, 519, 127, 5, 520, 0], nc=3, ns=2, shanks='none',
+                           whitening='none', geometry='grid', id_dtype='uint16', clu_dtype='uint32'))
+    # the curation goes on on the loaded object: merge into an existing id / split / reassignment between two rounds of queries
+    out.append(G.gen_input(rng, nt=3, st=[0, 0, 1, 1, 2, 2, 2], sc=[3, 3, 3, 3, 2, 2, 4],
+                           hist=[{'sc': [3, 3, 3, 3, 3, 2, 4], 'mode': 'elementwise'}, {'sc': [3, 4, 3, 3, 3, 2, 0], 'mode': 'inplace'}],
+                           **small))
+    out.append(G.gen_input(rng, nt=3, st=[0, 1, 1, 2, 2], sc=[0, 1, 1, 2, 2],
+                           hist=[{'sc': [3, 3, 3, 2, 2], 'mode': 'rebind'}, {'sc': [3, 3, 1, 3, 2], 'mode': 'elementwise'}],
+                           nc=5, ns=2, shanks='two', whitening='perm'))
+    out.append(G.gen_input(rng, nt=3, st=[0, 0, 0, 1, 1, 2], sc=[3, 3, 3, 3, 3, 2], nc=16, ns=2, shanks='none', whitening='none',
+                           ties=True, geometry='line', style='dense', hist=[{'sc': [3, 3, 0, 3, 3, 3], 'mode': 'inplace'}]))
     return out
 
 
@@ -143,6 +165,13 @@ def generate(tier, rng):
         if rng.random() < 0.22:
             o['ties'] = True
         o['p_extra'] = 0.2
+        # stage 6: independent axes -- id magnitudes (many templates, cluster ids in the thousands, biased to the narrow id
+        # dtype), and the curation going on on the loaded object between two rounds of queries
+        if rng.random() < 0.07:
+            o['big'] = True
+            if rng.random() < 0.5:
+                o['id_dtype'] = 'uint16'
+        o['p_hist'] = 0.25
         cases.append({'kind': 'load', 'inp': G.gen_input(rng, **o)})
     return cases
 
@@ -199,6 +228,34 @@ def run_case(case):
                      m.get_cluster_mean_waveforms(c, unwhiten=unw))
                 l.append((int(c), _col_pairs(r)))
             obs[key] = l
+        # stage 6: the curation goes on on the SAME object: spike_clusters updated (whole array in place / only the changed
+        # elements in place / attribute rebound to a new array), then get_merge_map() and the mean waveforms of every id
+        # with spikes are asked again (both routes)
+        if inp.get('hist'):
+            stages = []
+            try:
+                for h in inp['hist']:
+                    new = np.array(h['sc'], dtype=np.asarray(m.spike_clusters).dtype)
+                    if h['mode'] == 'rebind':
+                        m.spike_clusters = new
+                    elif h['mode'] == 'elementwise':
+                        idx = np.nonzero(np.asarray(m.spike_clusters) != new)[0]
+                        m.spike_clusters[idx] = new[idx]
+                    else:
+                        m.spike_clusters[:] = new
+                    assert np.asarray(m.spike_clusters).tolist() == h['sc']
+                    mm, nan = m.get_merge_map()
+                    so = {'sc': list(h['sc']), 'mm': [(int(k), [int(t) for t in v]) for k, v in mm.items()],
+                          'nan': [int(x) for x in np.asarray(nan).tolist()]}
+                    for unw, key in ((False, 'mean_w'), (True, 'mean_u')):
+                        so[key] = [(int(c), _col_pairs(m.get_cluster_mean_waveforms(c, unwhiten=unw)))
+                                   for c in sorted(set(h['sc']))]
+                    stages.append(so)
+                obs['hist'] = stages
+            except AssertionError:
+                raise
+            except Exception as e:          # a query on the updated object raised: code 20
+                obs['hist_crash'] = '%s: %s' % (type(e).__name__, e)
         m.close()
         return ('loaded', obs)
     finally:
@@ -227,11 +284,17 @@ def encode(case, obs):
         return cin, 'ObsCrash'
     o = obs[1]
     tch = lambda l: q.lst(l, lambda kv: '(%s, %s)' % (q.z(kv[0]), q.zl(kv[1])))
-    cobs = '(ObsLoaded (mkobs %s %s %s %s %s %s %s %s %s %s %s))' % (
-        q.lst(o['mm'], lambda kv: '(%s, %s)' % (q.z(kv[0]), q.zl(kv[1]))), q.zl(o['nan']), q.z(o['ncl']), q.z(o['nt']),
+    mmenc = lambda l: q.lst(l, lambda kv: '(%s, %s)' % (q.z(kv[0]), q.zl(kv[1])))
+    rec = '(mkobs %s %s %s %s %s %s %s %s %s %s %s)' % (
+        mmenc(o['mm']), q.zl(o['nan']), q.z(o['ncl']), q.z(o['nt']),
         q.lst(o['data'], lambda t: q.lst(t, _toks)), _mobs(o['mean_w']), _mobs(o['mean_u']), q.b(o['inputs_ok']),
         tch(o['tch_w']), tch(o['tch_u']), q.b(o['dense']))
-    return cin, cobs
+    if 'hist_crash' in o:
+        return cin, '(ObsHistCrash %s)' % rec
+    if 'hist' in o:
+        return cin, '(ObsHist %s %s)' % (rec, q.lst(o['hist'], lambda h: '(mkhobs %s %s %s %s %s)' % (
+            q.zl(h['sc']), mmenc(h['mm']), q.zl(h['nan']), _mobs(h['mean_w']), _mobs(h['mean_u']))))
+    return cin, '(ObsLoaded %s)' % rec
 
 
 def _n_templates_of(inp, c):
@@ -260,6 +323,11 @@ def dist(case, obs):
     out.append('boundary_tie=%s' % G.boundary_tie(inp['pos']))
     out.append('extra=' + ('+'.join(sorted(e[0] for e in inp['opts'].get('extra') or [])) or 'none'))
     out.append('id_dtype=' + inp['opts']['id_dtype'])
+    out.append('hist_stages=%d' % len(inp.get('hist') or []))
+    out.append('hist_modes=' + ('+'.join(sorted(set(h['mode'] for h in inp.get('hist') or []))) or 'none'))
+    # does template_id * n_clusters leave 16 bits for some spike?
+    out.append('id_product=%s' % ('>=2^16' if max(inp['st']) * (max(inp['sc']) + 1) >= 65536 else '<2^16'))
+    out.append('max_cluster_id=%s' % ('<64' if max(inp['sc']) < 64 else '<1024' if max(inp['sc']) < 1024 else '>=1024'))
     if curated:
         mx = max(inp['sc'])
         present = set(inp['sc'])
@@ -308,7 +376,31 @@ def shrink(case):
     # drop a spike
     if len(inp['st']) > 1:
         for i in range(len(inp['st'])):
-            yield mk(st=inp['st'][:i] + inp['st'][i + 1:], sc=inp['sc'][:i] + inp['sc'][i + 1:])
+            kw = dict(st=inp['st'][:i] + inp['st'][i + 1:], sc=inp['sc'][:i] + inp['sc'][i + 1:])
+            if inp.get('hist'):
+                kw['hist'] = [dict(h, sc=h['sc'][:i] + h['sc'][i + 1:]) for h in inp['hist']]
+            yield mk(**kw)
+    # stage 6: drop a stage of the on-object history (first / last), drop the history; make the first stage the loaded vector
+    hist = inp.get('hist') or []
+    if hist:
+        c = copy.deepcopy(inp)
+        c.pop('hist')
+        c['ops'] = ['given']
+        yield {'kind': 'load', 'inp': c}
+        if len(hist) > 1:
+            yield mk(hist=hist[:-1])
+            yield mk(hist=hist[1:])
+            yield mk(sc=list(hist[0]['sc']), hist=hist[1:])
+        for j, h in enumerate(hist):
+            if h['mode'] != 'inplace':
+                yield mk(hist=hist[:j] + [dict(h, mode='inplace')] + hist[j + 1:])
+            for i, cc in enumerate(h['sc']):
+                prev = (inp['sc'] if j == 0 else hist[j - 1]['sc'])[i]
+                if cc != prev:          # undo one reassignment of the stage
+                    yield mk(hist=hist[:j] + [dict(h, sc=h['sc'][:i] + [prev] + h['sc'][i + 1:])] + hist[j + 1:])
+    # drop unused templates above the largest used id at once (many-template inputs)
+    if nt > 2 and max(inp['st']) + 1 < nt - 1:
+        yield mk(tmpl=inp['tmpl'][:max(2, max(inp['st']) + 1)])
     # drop whitening, shanks
     if inp['wmi'] is not None:
         yield mk(wmi=None)
